@@ -43,6 +43,9 @@ GEOMS = {
     "jitter2": {"size": (1.2, 0.8, 1.0), "jitter": 2},
     "taper": {"size": (1.0, 1.0, 1.0), "taper": 0.25},
     "arc": {"size": (1.0, 1.3, 0.7), "arcs": "auto"},
+    # the same, but the arc on the shared edge is declared by ONE of the blocks that share it only (first / last added)
+    "arc_first": {"size": (1.0, 1.3, 0.7), "arcs": "auto", "declared_by": "first"},
+    "arc_last": {"size": (1.0, 1.3, 0.7), "arcs": "auto", "declared_by": "last"},
 }
 
 KINDS = {
@@ -78,7 +81,7 @@ def cases(tier, seed):
     out = []
     geoms = list(GEOMS)
     if tier == "quick":
-        geoms = ["stretch", "arc", ["jitter1", "jitter2", "taper"][seed % 3]]
+        geoms = ["stretch", "arc", "arc_first", "arc_last", ["jitter1", "jitter2", "taper"][seed % 3]]
     for name in ASSEMBLIES:
         if tier == "quick" and name == "col2y":
             continue
@@ -92,6 +95,10 @@ def cases(tier, seed):
                             if sections == "2m" and pres == "c2c_expansion":
                                 continue
                             out.append({"assembly": name, "dir": g, "geom": geom, "kind": kind, "preserve": pres, "sections": sections, "tier": tier})
+                            if geom == "stretch" and sections == 1:
+                                out.append({"assembly": name, "dir": g, "geom": geom, "kind": kind, "preserve": pres, "sections": sections, "tier": tier, "rewrite": True})
+                            if geom in ("jitter1", "jitter2", "taper") and sections == 1 and pres == "c2c_expansion" and name == "row2":
+                                out.append({"assembly": name, "dir": g, "geom": geom, "kind": kind, "preserve": pres, "sections": sections, "tier": tier, "overspec": True})
     return out
 
 
@@ -141,6 +148,12 @@ def make_script(case, numbering):
         off[(g + 1) % 3] = 0.18
         off[(g + 2) % 3] = 0.07
         geo["arcs"] = [[far, far2, off]]
+        if geo.get("declared_by"):
+            # an arc on an edge (along the subject direction) of the face the first two blocks share
+            p1 = [max(a, b) for a, b in zip(cells[0], cells[1])]
+            p2 = list(p1)
+            p2[g] += 1
+            geo["arcs"] = [[p1, p2, off, geo["declared_by"]]]
     script = {"cells": cells, "numbering": numbering, "chops": [], "order": list(range(len(cells))), "geometry": geo}
     fam = gradlab.Families(script)
     subject_root = fam.find((0, g))
@@ -152,6 +165,11 @@ def make_script(case, numbering):
                 chops.append([0, g, kw])
         else:
             chops.append([root[0], root[1], {"count": 2 + k % 3}])
+    if case.get("overspec"):
+        # the same request is also given to the last block of the subject family (a user chopping "every block the same")
+        last = max(m[0] for m in fam.parent if fam.find(m) == subject_root)
+        for kw in subject_chops(case, size[g]):
+            chops.append([last, g, kw])
     script["chops"] = chops
     return script, fam, subject_root
 
@@ -230,6 +248,8 @@ def run_case(case):
         execs += 1
         coords = {k: case[k] for k in ("assembly", "dir", "geom", "kind", "preserve", "sections")}
         coords["numbering"] = numbering
+        if case.get("overspec"):
+            coords["overspec"] = True
         if kind != "ok":
             outcomes[f"{kind}:{payload}"] = outcomes.get(f"{kind}:{payload}", 0) + 1
             violations.append({"clause": "well-posed-chops-rejected", "coords": coords, "detail": f"{kind} {payload}"})
@@ -252,6 +272,36 @@ def run_case(case):
             )
             if not same or p2["vertices"] != parsed["vertices"] or p2["edges"] != parsed["edges"]:
                 violations.append({"clause": "second-write-differs", "coords": coords, "detail": "the same mesh written again gives other counts, gradings, vertices or edges"})
+        # ... and after the vertices were moved (here: the whole assembly stretched along the subject direction) a
+        # write() of the same mesh gives what a freshly assembled mesh with the same positions gives
+        if case.get("rewrite"):
+            g_ = case["dir"]
+
+            def stretch(m):
+                for v in m.vertices:
+                    p = np.array(v.position)
+                    p[g_] = p[g_] * 1.6 + 0.1 * p[(g_ + 1) % 3]
+                    v.move_to(p)
+
+            stretch(mesh)
+            kind3, payload3 = gradlab.write_and_observe(mesh)
+            fresh, _ = gradlab.build_mesh(script)
+            fresh.assemble()
+            stretch(fresh)
+            kind4, payload4 = gradlab.write_and_observe(fresh)
+            execs += 2
+            if (kind3 == "ok") != (kind4 == "ok"):
+                violations.append({"clause": "rewrite-after-move-differs-from-fresh", "coords": coords, "detail": f"the written mesh, stretched and written again: {kind3} {payload3 if kind3 != 'ok' else ''}; a fresh mesh with the same vertex positions: {kind4} {payload4 if kind4 != 'ok' else ''}"})
+            elif kind3 == "ok":
+                p3, p4 = gradlab.parse_ok(payload3), gradlab.parse_ok(payload4)
+                same = all(
+                    b1["counts"] == b2["counts"]
+                    and b1["kind"] == b2["kind"]
+                    and all(len(i1) == len(i2) and all(close(x, y, 1e-9) for s1, s2 in zip(i1, i2) for x, y in zip(s1, s2)) for i1, i2 in zip(b1["grading"], b2["grading"]))
+                    for b1, b2 in zip(p3["blocks"], p4["blocks"])
+                )
+                if not same:
+                    violations.append({"clause": "rewrite-after-move-differs-from-fresh", "coords": coords, "detail": "counts or gradings of the re-written mesh differ from those of a fresh mesh with the same vertex positions"})
         simple = sum(1 for b in parsed["blocks"] if b["kind"] == "simpleGrading")
         okey = f"ok:simple{simple}of{len(parsed['blocks'])}"
         outcomes[okey] = outcomes.get(okey, 0) + 1
